@@ -56,7 +56,7 @@ class SlowRaw(io.RawIOBase):
 OUTCOME = 10 ** 6      # line tokens from here on are outcomes (even: a failure, odd: an error), not output
 
 
-def real_run(k, n, order, verbose, lines, dots, late=None):
+def real_run(k, n, order, verbose, lines, dots, late=None, chatty=False):
     from zope.testrunner import runner
     names = ["wl.L%d" % i for i in range(k)]
     gates = [threading.Event() for _ in range(k)]
@@ -79,7 +79,14 @@ def real_run(k, n, order, verbose, lines, dots, late=None):
                     result.write(b"...\n")
                 result.write(("LINE %d %d\n" % (i, ln)).encode())
             started[i].set()
-            gates[i].wait(30)
+            if chatty:
+                # a layer whose tests come thick and fast: a keep-alive line of dots every few milliseconds for as long
+                # as it runs
+                t_end = time.time() + 30
+                while not gates[i].wait(0.02) and time.time() < t_end:
+                    result.write(b"..\n")
+            else:
+                gates[i].wait(30)
             # what the layer subprocess reported (tokens >= OUTCOME stand for failing / erroring tests): handed over when
             # the child is through - in completion order, as the real worker threads do
             for ln in lines[i]:
@@ -222,10 +229,15 @@ def run(ctx):
             for _ in range(rng.choice([0, 1, 1, 2, 3])):
                 lines[i_].insert(rng.randint(0, len(lines[i_])), OUTCOME + 10 * rng.randint(0, 9999) + rng.choice([0, 1]))
         dots = rng.random() < 0.5
-        full.append((k, n, order, verbose, lines, dots))
+        # chatty layers (a keep-alive line every few milliseconds while they run) where a slot frees while layers wait,
+        # with the keep-alive collector (-vv)
+        chatty = (k > n >= 2 and len(full) % 2 == 0) or len(full) % 7 == 3
+        if chatty:
+            verbose = 2
+        full.append((k, n, order, verbose, lines, dots, chatty))
     import concurrent.futures
     # the fake replaces a module attribute: real runs are sequential
-    reals = [real_run(*c) for c in full]
+    reals = [real_run(*c[:6], chatty=c[6]) for c in full]
     # a slow reader behind the parent's stdout and children that finish (with more output) at that very moment
     late_cases = []
     for _ in range(4 if ctx.quick() else 40):
@@ -252,8 +264,8 @@ def run(ctx):
                           "order expected)" % (got, want), case, signature="C06:lost-lines")
     answers = ctx.driver.batch([{"op": "sched", "n": c[1], "k": c[0], "labels": model_schedule(c[0], c[1], c[2], c[4])}
                                 for c in full])
-    for (k, n, order, verbose, lines, dots), res, ans in zip(full, reals, answers):
-        case = {"k": k, "N": n, "finish_order": order, "verbose": verbose, "lines": lines, "dots": dots,
+    for (k, n, order, verbose, lines, dots, chatty), res, ans in zip(full, reals, answers):
+        case = {"k": k, "N": n, "finish_order": order, "verbose": verbose, "lines": lines, "dots": dots, "chatty": chatty,
                 "real": {kk: res.get(kk) for kk in ("total", "max", "initial", "hung", "exc", "start_order", "progress")},
                 "stdout": res.get("stdout", "")[-800:], "model": ans}
         ctx.count((k, n, tuple(order), verbose, dots), nontrivial=k >= 2 and order != sorted(order),
@@ -316,11 +328,65 @@ def replay(ctx, obj):
     run(ctx)
 
 
+def barrier_cases(ctx):
+    """real layer subprocesses: with -j N and more than N layers, a layer whose test can only go on once a layer that is
+    still waiting for a slot has started a test gets there - the slot a finished layer frees is used at once (the slot
+    accounting of the real spawn code, worker threads and their helper threads included)"""
+    import os
+    import shutil
+    from harness import corr_world as cw
+    from harness import worlds
+    rng = ctx.rng
+    for i in range(2 if ctx.quick() else 12):
+        n = 2 if i % 2 == 0 else 3
+        w = worlds.gen_world(rng, n_layers=n + 2, tests_per_layer=(1, 1), kinds=["pass"], p_fault=0.0, p_write=0.0)
+        for l in w["layers"]:
+            if l["kind"] != "unit":
+                l.update(setUp=True, tearDown=True, setUpRaises=[], tearDownFaults=[], bases=[])
+                if l["kind"] == "class":
+                    l["kind"] = "instance"
+                l.pop("falsy", None)
+                for k_ in ("slowSetUp", "slowTearDown"):
+                    l.pop(k_, None)
+        for t in w["tests"]:
+            for k_ in ("doctest", "rebind", "ownstream", "label"):
+                t.pop(k_, None)
+        c = cw.Case(w, {"verbose": rng.choice([0, 1, 2]), "processes": n}, "barrier")
+        cw.run_models(ctx, [c]) if False else None
+        # the order in which the layers are handed to subprocesses: all layers with tests, in layer order
+        cw.compute_groups(c)
+        order = [li for li, ts in sorted(c.groups, key=lambda g: (w["layers"][g[0]]["kind"] != "unit",
+                                                                   worlds.layer_name(w, g[0]))) if ts]
+        if len(order) < n + 1:
+            continue
+        first_test = {li: ts[0] for li, ts in c.groups if ts}
+        tests = {t["id"]: t for t in w["tests"]}
+        # the layers of the first batch except the first wait for the layers that get the freed slots
+        for rank in range(1, n):
+            if n + rank - 1 < len(order):
+                tests[first_test[order[rank]]]["body"]["waitForTest"] = first_test[order[n + rank - 1]]
+        d = os.path.join(ctx.tmp, "bar%03d" % i)
+        worlds.materialize(w, d)
+        obs = worlds.run_real(w, dict(c.opts, _timeout=100), d)
+        shutil.rmtree(d, ignore_errors=True)
+        ctx.count(("barrier", i, n), nontrivial=True, sample=None)
+        ctx.bump("real-children-barrier")
+        waited = [e for e in obs.events if e.get("ev") == "waited"]
+        bad = [e for e in waited if not e.get("ok")]
+        if obs.timeout or bad or not waited:
+            ctx.violation("-j %d, %d layers: the test t%s waits for a test of a layer that needs the slot freed by the first "
+                          "layer - it %s (run order %r)" % (n, len(order), bad[0]["t"] if bad else "?",
+                                                            "never started within 25 s" if bad else "did not report (timeout %r)" % obs.timeout,
+                                                            [worlds.layer_name(w, li) for li in order]),
+                          {"world": w, "opts": c.opts, "waited": waited}, signature="C06:slot-not-refilled")
+
+
 _inner_run = run
 
 
 def run(ctx):  # noqa: F811
     _inner_run(ctx)
+    barrier_cases(ctx)
     # real -j N runs against sequential runs of the same worlds (same tests, same order per layer, same
     # outcomes and verdict), with --shuffle so that the order is not the discovery order
     from harness import corr_c03
